@@ -170,3 +170,74 @@ def h_delete_app_sim(l0: int, l1: int, ct: int, cm2m: int, cross: bool, which: i
     ok = (app is None or app.is_empty())
     ok = ok and proj.get_app_sig(labels[other]).serialize() == before_other
     return hx.verdict(ok, True)
+
+
+# ------------------------------------------------------------------ which apps count as stale
+from django_evolution.diff import Diff
+
+STORED_LABELS = ['shop', 'sho', 'shop2']      # prefixes of each other
+
+
+def _simple_app(label, legacy=None, empty=False):
+    app = AppSignature(app_id=label, legacy_app_label=legacy)
+    if not empty:
+        app.add_model_sig(_model('M', '%s_m' % (legacy or label),
+                                 [FieldSignature('v', models.IntegerField, {})]))
+    return app
+
+
+def h_stale_apps(s0: int, s1: int, f0: int, f1: int, extra_new: bool, purge: bool) -> bool:
+    """Which apps of the stored signature are stale (= what --purge removes, Diff.deleted /
+    Evolver.queue_purge_old_apps): exactly those that are installed neither under their stored
+    label nor under a new label whose legacy_app_label is the stored one. Without --purge the
+    difference is ignored (Diff.is_empty(ignore_apps=True)).
+
+    s0, s1: stored labels (index into a pool with prefix relations), f_i: fate of stored app i in
+    the current project: 0 still installed, 1 installed under a new label with
+    legacy_app_label = stored label, 2 gone, 3 gone while another app takes a label that merely
+    starts with the stored one
+    pre: 0 <= s0 <= 2 and 0 <= s1 <= 2 and s0 != s1 and 0 <= f0 <= 3 and 0 <= f1 <= 3
+    pre: hx.in_part(f0, f1)
+    pre: not hx.excluded(s0, s1, f0, f1, extra_new, purge)
+    post: _
+    """
+    stored = ProjectSignature()
+    target = ProjectSignature()
+    labels = [hx.pick(STORED_LABELS, s0), hx.pick(STORED_LABELS, s1)]
+    fates = [hx.realize(f0), hx.realize(f1)]
+    used = set(labels)
+    expect_deleted = []
+    for i, (lab, fate) in enumerate(zip(labels, fates)):
+        stored.add_app_sig(_simple_app(lab))
+        if fate == 0:
+            target.add_app_sig(_simple_app(lab))
+        elif fate == 1:
+            target.add_app_sig(_simple_app('renamed%d' % i, legacy=lab))
+        else:
+            expect_deleted.append(lab)
+            if fate == 3:
+                other = lab + '_x'
+                if other not in used:
+                    used.add(other)
+                    target.add_app_sig(_simple_app(other))
+    if extra_new:
+        target.add_app_sig(_simple_app('brandnew'))
+    d = Diff(stored, target)
+    got = list(d.deleted)
+    ok = sorted(got) == sorted(expect_deleted)
+    for lab in got:
+        ok = ok and list(d.deleted[lab]) == ['M']
+    # without --purge removed apps never block or trigger anything (a label change is a
+    # difference of its own: it needs a RenameAppLabel)
+    renamed = 1 in fates
+    ok = ok and bool(d.is_empty(ignore_apps=True)) == (not renamed)
+    ok = ok and bool(d.is_empty(ignore_apps=False)) == (not expect_deleted and not renamed)
+    if purge and ok:
+        # purging the stale apps leaves exactly the others in the stored signature
+        ev = _Evolver(stored)
+        for lab in got:
+            task = PurgeAppTask(ev, lab)
+            task.prepare()
+        left = sorted(a.app_id for a in stored.app_sigs if not a.is_empty())
+        ok = left == sorted(l for l in labels if l not in expect_deleted)
+    return hx.verdict(ok, bool(expect_deleted) or 1 in fates)
